@@ -959,6 +959,41 @@ func (g *cgen) expr(depth int) stmt.Expr {
 	}
 }
 
+// repeated builds a condition in which one atomic filter occurs in two or three different branches.
+func (g *cgen) repeated() stmt.Expr {
+	lit := func() stmt.Expr {
+		a := g.atom()
+		if g.r.Intn(4) == 0 {
+			return &stmt.NotExpr{Expr: a}
+		}
+		return a
+	}
+	a := g.atom()
+	A := func() stmt.Expr { return a }
+	b, c := lit(), lit()
+	and := func(l, r stmt.Expr) stmt.Expr { return &stmt.BinaryExpr{Left: l, Right: r, Operator: stmt.AND} }
+	or := func(l, r stmt.Expr) stmt.Expr { return &stmt.BinaryExpr{Left: l, Right: r, Operator: stmt.OR} }
+	par := func(e stmt.Expr) stmt.Expr { return &stmt.ParenExpr{Expr: e} }
+	switch g.r.Intn(8) {
+	case 0:
+		return or(par(and(A(), b)), par(and(A(), c)))
+	case 1:
+		return and(par(or(A(), b)), par(or(A(), c)))
+	case 2:
+		return or(par(and(A(), b)), A())
+	case 3:
+		return and(A(), par(or(b, A())))
+	case 4:
+		return or(or(par(and(A(), b)), par(and(c, A()))), par(and(A(), b)))
+	case 5:
+		return and(&stmt.NotExpr{Expr: a}, par(or(A(), b)))
+	case 6:
+		return or(par(and(b, A())), par(and(par(or(A(), c)), A())))
+	default:
+		return and(par(or(par(and(A(), b)), c)), par(or(A(), &stmt.NotExpr{Expr: a})))
+	}
+}
+
 // sqlOf renders a grammar-shaped tree as SQL text (ok=false when some literal cannot be quoted).
 func sqlOf(e stmt.Expr) (string, bool) {
 	q := func(s string) (string, bool) {
@@ -1217,7 +1252,28 @@ func genQuery(c *core.Ctx, r *rand.Rand, metrics, keys []string, defects bool) (
 		name = "nometric"
 	}
 	g := &cgen{r: r, keys: keys, tree: r.Intn(2) == 0, defects: defects}
-	cond := g.expr(1 + r.Intn(3))
+	var cond stmt.Expr
+	if r.Intn(5) == 0 {
+		// region: the SAME atomic filter in different branches of and / or (seriesFiltering evaluates in
+		// place on bitmap objects: an operand object shared between branches would be corrupted)
+		cond = g.repeated()
+		c.Branch("cond/repeated-atom-region")
+	} else {
+		cond = g.expr(1 + r.Intn(3))
+	}
+	{
+		var as []stmt.TagFilter
+		atomsOf(cond, &as)
+		seen := map[string]bool{}
+		for _, a := range as {
+			k := string(stmt.Marshal(a))
+			if seen[k] {
+				c.Branch("cond/atom-occurs-twice")
+				break
+			}
+			seen[k] = true
+		}
+	}
 	var gb []string
 	switch r.Intn(6) {
 	case 0, 1:
